@@ -19,6 +19,7 @@ EXPLANATION = (
     ' (ATOMIC output-truncated) FILE is opened with truncation (File::create, or an OpenOptions chain with truncate(true)).'
     ' (EXIT io errors) no io::Result on the output path is unwrapped; (ATOMIC one-step write, NO-STD prelude / qualified lookup) three known findings.'
     ' (WRITE-CHECKED no-fsync) success depends only on create / write / flush, which every writable path supports.'
+    ' (FILE-ID) no two files share an id, so equal positions in two files stay two errors; (ATOMIC emitter) lua::generate fails only when a write fails.'
 )
 UNDECIDED = "--no-std equivalence (variable numbering changes) and run mode (needs the lua interpreter)."
 
